@@ -244,3 +244,39 @@ def keyword_vocab(ctx, repo):
 
 
 ALL = [three_way, lookup_order, chain_siblings, keyword_vocab]
+
+
+def argswap_scope(ctx, repo, scope, rule="F21"):
+    """F21 over arbitrary modules: calls to functions/methods resolved inside the module (or through its imports)."""
+    ctx.rule(rule, "no call passes two arguments crosswise to the callee's parameters of the same names", floor=5)
+    for rel in sorted(repo.rels()):
+        if not rel.startswith(scope):
+            continue
+        mod = repo.mod(rel)
+        for q, f in sorted(mod.funcs.items()):
+            for c in calls_in(f.node, nested=False):
+                tgt = None
+                if isinstance(c.func, ast.Attribute) and isinstance(c.func.value, ast.Name) and c.func.value.id == "self" and f.cls is not None:
+                    tgt = repo.lookup_method(f.cls, c.func.attr)
+                elif isinstance(c.func, ast.Name):
+                    r = repo.resolve_name(mod, c.func.id)
+                    if r and r[0] == "func":
+                        tgt = r[1]
+                    elif r and r[0] == "class":
+                        tgt = repo.lookup_method(r[1], "__init__")
+                elif isinstance(c.func, ast.Attribute):
+                    r = repo.resolve_expr(mod, c.func)
+                    if r and r[0] == "func":
+                        tgt = r[1]
+                if tgt is not None and len(c.args) >= 2:
+                    pos, *_ = _sig(tgt)
+                    ids = [_arg_ident(a) for a in c.args]
+                    bad = []
+                    for i, a in enumerate(ids):
+                        if a is None or i >= len(pos) or a not in pos or pos.index(a) == i:
+                            continue
+                        j = pos.index(a)
+                        if j < len(ids) and ids[j] is not None and ids[j] in pos and pos.index(ids[j]) == i:
+                            bad.append((a, ids[j]))
+                    if any(x is not None and x in pos for x in ids):
+                        ctx.ob(rule, f.where, f"{norm(c.func)}({', '.join(str(x) for x in ids)}) vs parameters {pos[:len(ids)]}", not bad, "" if not bad else f"arguments {bad[0][0]} and {bad[0][1]} are passed crosswise")
